@@ -150,6 +150,8 @@ class Hist(object):
                 self.doc_frag_partial(p, nc, old, replacing=old)
                 self.taint_check(p, nc, old, old)
                 if p.id in self.inserted_parents and old.parent is p: L.add('remove-after-insert')
+                # known finding: Document.replaceChild(x, x) on the document element/doctype leaves a stale documentElement/doctype
+                self.excl_check('C13-document-replaceChild-self', p.t == DOC and nc is old and old.parent is p and old.t in (EL, DT))
                 r = w.replaceChild(p, nc, old)
                 return 'rep\t%s\t%s\t%s' % (I(p), I(nc), I(old)), r
         if op in ('sat', 'satns', 'rat', 'ratns', 'san', 'sanns', 'ran', 'gat', 'gatns', 'gan', 'ganns', 'hat', 'hatns'):
@@ -179,8 +181,11 @@ class Hist(object):
                     self.excl_check('C13-setAttributeNS-prefixed-lookup', bool(f) and prefix is not None)
                     self.excl_check('C13-setAttributeNS-keeps-prefix', bool(f) and prefix is None and f[0].prefix is not None)
                 return 'satns\t%s\t%s\t%s\t%s' % (I(e), esc(ns), esc(q), esc(s)), w.setAttributeNS(e, ns, q, s)
-            if op == 'rat': nm = attrname(b); return 'rat\t%s\t%s' % (I(e), esc(nm)), w.removeAttribute(e, nm)
-            if op == 'ratns': ns, ln = attrns(b); return 'ratns\t%s\t%s\t%s' % (I(e), esc(ns), esc(ln)), w.removeAttributeNS(e, ns, ln)
+            def defaults_lost(at):
+                # known finding: an element made by cloneNode does not get DTD defaults back
+                self.excl_check('C13-clone-loses-defaults', at is not None and e.cloned and not e.readonly and any(an == at.name for an, _ in w.default_attrs(e.doc, e.name)))
+            if op == 'rat': nm = attrname(b); defaults_lost((w._find_attr(e, nm) or [None])[0]); return 'rat\t%s\t%s' % (I(e), esc(nm)), w.removeAttribute(e, nm)
+            if op == 'ratns': ns, ln = attrns(b); defaults_lost((w._find_attr_ns(e, ns, ln) or [None])[0]); return 'ratns\t%s\t%s\t%s' % (I(e), esc(ns), esc(ln)), w.removeAttributeNS(e, ns, ln)
             if op in ('san', 'sanns', 'ran'):
                 sel, idx = b % 4, b // 4
                 if op == 'ran' and sel < 3 and e.attrs: at = self.pick(e.attrs, idx)
@@ -192,8 +197,10 @@ class Hist(object):
                     self.excl_check('C13-setAttributeNode-self', at.owner is e and not e.readonly)
                     return 'san\t%s\t%s' % (I(e), I(at)), w.setAttributeNode(e, at)
                 if op == 'sanns':
+                    if at.local is None: return None     # NS-aware insertion of a DOM Level 1 attribute: outside the domain
                     self.excl_check('C13-setAttributeNodeNS-self-inuse', at.owner is e and not e.readonly)
                     return 'sanns\t%s\t%s' % (I(e), I(at)), w.setAttributeNodeNS(e, at)
+                if at.owner is e: defaults_lost(at)
                 return 'ran\t%s\t%s' % (I(e), I(at)), w.removeAttributeNode(e, at)
             if op == 'gat': nm = attrname(b); return 'gat\t%s\t%s' % (I(e), esc(nm)), w.getAttribute(e, nm)
             if op == 'gan': nm = attrname(b); return 'gan\t%s\t%s' % (I(e), esc(nm)), w.getAttributeNode(e, nm)
@@ -241,9 +248,11 @@ class Hist(object):
             n = self.pick([x for x in self.live() if x.t not in (DOC, DT, ENT, NOT)], a)
             if n is None: return None
             deep = b % 2
+            # known finding: a directly cloned default attribute stays unspecified
+            self.excl_check('C13-clone-attr-specified', n.t == AT and n.owner is not None and not n.specified)
             r = w.cloneNode(n, bool(deep))
             # known finding: the clone of a first child carries the internal "first child" flag
-            if 'C13-clone-firstchild-flag' in self.excl and n.parent is not None and n.parent.children[0] is n and r is not None and not r.is_err():
+            if 'C13-clone-firstchild-flag' in self.excl and ((n.parent is not None and n.parent.children[0] is n) or n in self.tainted) and r is not None and not r.is_err():
                 self.tainted.add(r.ret)
             return 'clone\t%s\t%d' % (I(n), deep), r
         if op == 'imp':
@@ -277,15 +286,47 @@ class Hist(object):
             if codes == {dm.HIERARCHY} and all(k.t in dm.ALLOWED[DOC] or (k.t == TX and k.value.strip(' \t\r\n') == '') for k in nc.children) and nc.children:
                 raise Excluded('C13-document-fragment-partial-insert')
 
+    # ---- canned preludes: concrete scripts so that most histories start from trees worth mutating --------
+    def prelude(self, kind):
+        w = self.w; I = lambda n: str(n.id)
+        def mk(line, res):
+            self.emit((line, res)); return res.ret if isinstance(res.ret, dm.Node) else None
+        def app(p, c):
+            r = w.appendChild(p, c)
+            if not r.is_err(): self.inserted_parents.add(p.id)
+            mk('app\t%s\t%s' % (I(p), I(c)), r)
+        if kind == 0: return
+        docs = w.docs if kind == 3 else [w.docs[-1] if kind == 1 else w.docs[0]]
+        for d in docs:
+            a = mk('cel\t%s\ta' % I(d), w.createElement(d, 'a'))
+            b = mk('celns\t%s\turn:x\tp:b' % I(d), w.createElementNS(d, 'urn:x', 'p:b'))
+            t1 = mk('ctx\t%s\thello' % I(d), w.createTextNode(d, 'hello'))
+            t2 = mk('ctx\t%s\tx' % I(d), w.createTextNode(d, 'x'))
+            cm = mk('ccm\t%s\tc' % I(d), w.createComment(d, 'c'))
+            app(a, t1); app(a, b); app(b, t2); app(a, cm)
+            mk('sat\t%s\tx\t1' % I(a), w.setAttribute(a, 'x', '1'))
+            mk('satns\t%s\turn:y\tq:k\tv' % I(b), w.setAttributeNS(b, 'urn:y', 'q:k', 'v'))
+            if not any(c.t == EL for c in d.children): app(d, a)
+            if kind == 2:
+                f = mk('cfr\t%s' % I(d), w.createDocumentFragment(d))
+                e = mk('cel\t%s\tc' % I(d), w.createElement(d, 'c'))
+                t3 = mk('ctx\t%s\t0123456789' % I(d), w.createTextNode(d, '0123456789'))
+                app(f, e); app(f, t3)
+
     # ---- run --------------------------------------------------------------------------------------
     def run(self, abstract_ops):
-        w = self.w
         for ab in abstract_ops:
-            st = Step(); st.labels = ()
             try:
                 cr = self.concretise(tuple(ab))
             except Excluded as e:
                 self.excluded[e.fid] += 1; cr = None
+            self.emit(cr)
+        return self.steps
+
+    def emit(self, cr):
+        w = self.w
+        if True:
+            st = Step(); st.labels = ()
             if cr is None or cr[1] is None:
                 st.line = 'nop'; st.res = Res.ok(); st.opname = 'nop'
             else:
@@ -299,7 +340,6 @@ class Hist(object):
             if self.with_views: st.vstate = w.view_state(); st.vcrc = '%08x' % (zlib.crc32(st.vstate.encode('ascii')) & 0xFFFFFFFF)
             else: st.vstate = None; st.vcrc = None
             self.steps.append(st)
-        return self.steps
 
 def doc_of(n): return dm.doc_of(n)
 
@@ -390,3 +430,50 @@ def compare(steps, resp_steps, init_crc, views=False):
             return 'step %d (%s): state of the live views differs from the model (outcome %s)' % (i, st.line.replace('\t', ' '), got), i, diverged
         prev_crc = crc
     return None, None, diverged
+
+
+def model_world(init_dump, setup):
+    return dm.World.from_init(init_dump, setup['ndocs'], doc0_text(setup['flags'])[1] if setup.get('flags') is not None else None)
+
+def run_case(case, ex, optable, views=False, hist_cls=None):
+    """one history: model first, then the executor, then the per-step comparison -> (ok, detail, hist)"""
+    import xv
+    hist_cls = hist_cls or Hist
+    setup = case['setup']
+    try:
+        inv0, init_dump = get_init(ex, setup)
+    except xv.ExecutorDied as e:
+        return False, 'executor died during setup rc=%s\n%s' % (e.rc, e.stderr[-2000:]), None
+    if inv0 != '-': return False, 'structural invariant violated in the initial state: ' + inv0, None
+    w = model_world(init_dump, setup)
+    crc0 = '%08x' % (zlib.crc32(w.dump().encode('ascii')) & 0xFFFFFFFF)
+    h = hist_cls(w, optable, case.get('excl', []), with_views=views)
+    h.prelude(setup.get('pre', 0))
+    steps = h.run(case['ops'])
+    try:
+        resp = execute(ex, setup, steps, views=views)
+    except xv.ExecutorDied as e:
+        return False, 'executor died rc=%s (memory-safety failure or abort in the code under test)\n%s\nhistory:\n%s' % (
+            e.rc, e.stderr[-3000:], '\n'.join('%d %s' % (i, s.line.replace('\t', ' ')) for i, s in enumerate(steps))), h
+    init, idump, rsteps = parse_response(resp)
+    if init[2] != crc0:
+        return False, 'MODEL-SELFCHECK: the model rebuilt from the initial dump does not reproduce it', h
+    detail, at, div = compare(steps, rsteps, crc0, views=views)
+    if div is not None: h.labels.add('unspec-diverged')
+    if detail is None: return True, 'ok', h
+    # enrich: full dumps of the failing step from both sides
+    try:
+        resp2 = execute(ex, setup, steps[:at + 1], full=True, views=views)
+        _, _, r2 = parse_response(resp2)
+        got_dump = '\n'.join(r2[at][1]) if at < len(r2) else '(none)'
+    except xv.ExecutorDied:
+        got_dump = '(executor died while re-running for the dump)'
+    w2 = model_world(init_dump, setup)
+    h2 = hist_cls(w2, optable, case.get('excl', []), with_views=views)
+    h2.prelude(setup.get('pre', 0)); npre = len(h2.steps)
+    h2.run(case['ops'][:max(0, at + 1 - npre)])
+    mdump = w2.dump() + (w2.view_state() if views else '')
+    hist = '\n'.join('%3d %-40s -> model %s%s' % (i, s.line.replace('\t', ' '), expected_outcome(s), ' [unspecified: %s]' % s.res.unspec if s.res.unspec else '')
+                     for i, s in enumerate(steps[:at + 1]) if s.line != 'nop')
+    detail += '\n--- history up to the failing step\n%s\n--- dump by xerces after the step\n%s\n--- dump by the model after the step\n%s' % (hist, got_dump, mdump)
+    return False, detail, h
